@@ -77,6 +77,12 @@ func runFree(cs Case) freeResult {
 		wg.Add(1)
 		go func() {
 			defer wg.Done()
+			defer func() {
+				if p := recover(); p != nil {
+					r.violate(panicViolation(w, p))
+					w.state.Store(stFinished)
+				}
+			}()
 			<-start
 			r.interp(w)
 		}()
@@ -149,6 +155,8 @@ func runFree(cs Case) freeResult {
 		if !finished {
 			desc := r.describe(false)
 			switch {
+			case r.violation() != nil: // e.g. a worker panicked inside pqueue and left the others waiting
+				res.v = r.violation()
 			case proven && anyFree:
 				res.v = evid.V("free-run-waiter-stuck-with-free-slot", "free-running (GOMAXPROCS=%d): every unfinished worker is parked in the select of pqueue.Acquire (goroutine dump), nobody is left to release or cancel, and for at least one of them every queue it may wait on has a free slot by the harness's holder count: %v\nstate: %s",
 					cs.Procs, stuck, desc)
